@@ -241,16 +241,17 @@ parseinit(struct scope *s, struct type *t)
 				focus(&p);
 		}
 		if (consume(TLBRACE)) {
-			if (consume(TRBRACE)){
-				if (p.sub->type->incomplete)
-					error(&tok.loc, "array of unknown size has empty initializer");
-				goto next;
-			}
 			if (p.cur == p.sub) {
 				if (p.cur->type->prop & PROPSCALAR)
 					error(&tok.loc, "nested braces around scalar initializer");
 				assert(p.cur->type->kind == TYPEARRAY);
 				focus(&p);
+			}
+			/* an empty initializer stands for the subobject the cursor is at, like any other */
+			if (consume(TRBRACE)){
+				if (p.sub->type->incomplete)
+					error(&tok.loc, "array of unknown size has empty initializer");
+				goto next;
 			}
 			p.cur = p.sub;
 			p.cur->iscur = true;
@@ -299,8 +300,9 @@ parseinit(struct scope *s, struct type *t)
 			if (tok.kind == TCOMMA) {
 				next();
 				if (tok.kind != TRBRACE) {
-					if (p.cur == p.sub && p.cur->type->prop & PROPSCALAR)
-						error(&tok.loc, "too many initializers for scalar");
+					/* the braces enclosed one initializer for the whole object: a scalar, a string literal, a structure value */
+					if (p.cur == p.sub)
+						error(&tok.loc, "too many initializers for type");
 					break;
 				}
 			} else if (tok.kind != TRBRACE) {
